@@ -13,6 +13,15 @@ REPO_ROOT = os.environ.get("PYVC_REPO", "/repo")
 PKG = "pydsdl"
 
 
+# Specification-side driver modules (assumed traversal contracts written as code that calls the real functions); they are
+# read with `ast` exactly like the repository sources.  module name -> path
+EXTRA_SOURCES: Dict[str, str] = {}
+
+
+def register_extra_source(modname: str, path: str) -> None:
+    EXTRA_SOURCES[modname] = path
+
+
 class FuncInfo:
     def __init__(self, qualname: str, node: ast.AST, module: "ModuleInfo", cls: Optional["ClassInfo"], outer=None):
         self.qualname = qualname
@@ -105,6 +114,16 @@ class ClassInfo:
                     out.append(c)
         return out
 
+    def instantiable_subclasses(self) -> List["ClassInfo"]:
+        """Subclasses (including self) that can have direct instances: a class with abstract methods that derives from
+        abc.ABC cannot be instantiated (enforced by ABCMeta)."""
+        out = []
+        for c in self.all_subclasses():
+            if c.is_abstract and any("ABC" in e for e in c.external_ancestors()):
+                continue
+            out.append(c)
+        return out or self.all_subclasses()
+
     def external_ancestors(self) -> List[str]:
         out = []
         for c in self.mro():
@@ -170,6 +189,12 @@ class Repo:
                 mi = ModuleInfo(rel, full, tree, is_pkg)
                 self.modules[rel] = mi
                 self._index_module(mi)
+        for modname, path in sorted(EXTRA_SOURCES.items()):
+            with open(path, "r", encoding="utf8") as f:
+                tree = ast.parse(f.read(), filename=path)
+            mi = ModuleInfo(modname, path, tree, False)
+            self.modules[modname] = mi
+            self._index_module(mi)
 
     def _index_module(self, mi: ModuleInfo) -> None:
         for st in mi.tree.body:
